@@ -55,6 +55,12 @@ Theorem C06_kmp_no_hang : forall r, kmpDeduplicate r <> Err OutOfFuel.
 Proof. exact kmpDeduplicate_no_OutOfFuel. Qed.
 Print Assumptions C06_kmp_no_hang.
 
+(** a clean sufficient condition for totality: the loop never sees [ring[i] = ring[i+2]] (in
+    particular a ring without repeated vertex) — then nothing is removed *)
+Theorem C06_kmp_total_no_step_back : forall r, no_step_back r -> kmpDeduplicate r = Ok r.
+Proof. exact kmp_id_no_step_back. Qed.
+Print Assumptions C06_kmp_total_no_step_back.
+
 (** RemoveSequences succeeds exactly on ordered, in-range ranges *)
 Theorem C06_removeSequences_ok_iff : forall s m,
   (exists t, removeSequences s m = Ok t) <-> ranges_ok (zlen s) m 0.
